@@ -6,13 +6,14 @@
      block "attr" : every slot / sub-slot / repository / USE-dependency combination against
                     every slot / sub-slot / repository / IUSE / USE state
      block "key"  : same constraints, different category or package name
+     block "use3" : three USE dependencies (signs x defaults) against all 27 IUSE / USE states of three flags
      block "slotop": atoms written with a slot operator (which must not influence matching)
    Sets are written as sequences.                                                       *)
 EXTENDS AtomMatch, TLC, Json, IOUtils, SequencesExt
 CONSTANT Size
 Weight(v) == (Len(v.nums) - 1) + (IF v.letter # 0 THEN 1 ELSE 0) + Len(v.sufs) + (IF v.rev # <<>> THEN 1 ELSE 0)
 G1(z) == VersOf({<<1>>, <<1, 0>>}, {<<0>>, <<1>>, <<1, 0>>, <<0, 1>>}, 2, {0, 1},
-             {"alpha", "p"}, {<<>>, <<1>>}, 1, {<<>>, <<0>>, <<1>>, <<1, 0>>})
+             {"alpha", "pre", "p"}, {<<>>, <<1>>}, 1, {<<>>, <<0>>, <<1>>, <<1, 0>>})
 \* the versions of weight <= 1 of a bigger grammar, built directly (filtering the whole grammar is slow)
 G2(z) == LET NF == {<<1>>, <<2>>, <<1, 0>>}
              NR == {<<0>>, <<1>>, <<1, 0>>, <<0, 1>>, <<0, 1, 0>>}
@@ -54,6 +55,15 @@ UseStates == {iu \in (SUBSET Flags) \X (SUBSET Flags) : iu[2] \subseteq iu[1]}
 PkgSlots == IF Size > 1 THEN {"0", "1"} \X {"0", "2"} ELSE {<<"0", "0">>, <<"1", "2">>}
 AttrPkgs == {J("attr", "pkg", "c", "p", "", v, sp[1], sp[2], r, {}, iu[1], iu[2]) :
                v \in (IF Size > 1 THEN {V1, V1r1} ELSE {V1}), sp \in PkgSlots, r \in {"r1", "r2"}, iu \in UseStates}
+\* three USE dependencies in one atom, signs and defaults mixed, against every IUSE / USE state of three flags
+Flags3 == {"x", "y", "z"}
+D3(f, n, d) == [flag |-> f, neg |-> n, dflt |-> d]
+Dflt3 == IF Size > 1 THEN {"", "+", "-"} \X {"", "+", "-"} \X {"", "+", "-"}
+         ELSE {<<"+", "+", "+">>, <<"-", "-", "-">>, <<"", "", "">>, <<"+", "-", "">>, <<"+", "+", "-">>, <<"-", "+", "+">>}
+Use3Atoms == {J("use3", "atom", "c", "p", "", V1, "", "", "", {D3("x", n[1], d[1]), D3("y", n[2], d[2]), D3("z", n[3], d[3])}, {}, {}) :
+                n \in BOOLEAN \X BOOLEAN \X BOOLEAN, d \in Dflt3}
+Use3Pkgs == {J("use3", "pkg", "c", "p", "", V1, "0", "0", "r1", {}, iu[1], iu[2]) :
+               iu \in {x \in (SUBSET Flags3) \X (SUBSET Flags3) : x[2] \subseteq x[1]}}
 \* slot operators (:= :* :0= :0/2=) do not take part in matching: same atoms, written with an operator
 \* (the record carries the operator only for rendering; Matches has no such field)
 OpAtoms == {[J("slotop", "atom", "c", "p", "", V1, s[1], s[2], "", {}, {}, {}) EXCEPT !.slotop = s[3]] :
@@ -61,7 +71,7 @@ OpAtoms == {[J("slotop", "atom", "c", "p", "", V1, s[1], s[2], "", {}, {}, {}) E
 OpPkgs == {J("slotop", "pkg", "c", "p", "", V1, sp[1], sp[2], "r1", {}, {}, {}) : sp \in {"0", "1"} \X {"0", "2"}}
 KeyAtoms == {J("key", "atom", c, p, o, V1, "", "", "", {}, {}, {}) : c \in {"c", "cc"}, p \in {"p", "pp", "p-q"}, o \in {"", "=", "=*", ">="}}
 KeyPkgs == {J("key", "pkg", c, p, "", V1, "0", "0", "r1", {}, {}, {}) : c \in {"c", "cc"}, p \in {"p", "pp", "p-q"}}
-Cases == VerAtoms \cup VerPkgs \cup AttrAtoms \cup AttrPkgs \cup KeyAtoms \cup KeyPkgs \cup OpAtoms \cup OpPkgs
+Cases == VerAtoms \cup VerPkgs \cup AttrAtoms \cup AttrPkgs \cup KeyAtoms \cup KeyPkgs \cup OpAtoms \cup OpPkgs \cup Use3Atoms \cup Use3Pkgs
 ASSUME PrintT(<<"sizes", Cardinality(VerAtoms), Cardinality(VerPkgs), Cardinality(AttrAtoms), Cardinality(AttrPkgs)>>)
 ASSUME ndJsonSerialize(IOEnv.OUT, SetToSeq(Cases))
 =========================================================================
